@@ -1,6 +1,7 @@
 (* C09: everything the independent reader of the basic encoding rules (Spec/X690.v: parse + interp =
    read) accepts is accepted by the model of the library's BER decoder, with the same abstract value
-   and the same unread remainder.
+   and the same unread remainder.  This file supersedes Proofs/BerAllForms.v (same theorem names; it does
+   not import it): the fragment now includes CHOICE and ANY.
 
    1   header level: split_ident / split_length (reference) = dec_ident / dec_len (model) on arbitrary
        octets: long-form tag numbers, over-long length octets (split_ident_dec_ident, split_length_dec_len);
@@ -9,15 +10,20 @@
    2   primitive leaves: contents the reference interprets are decoded to the same value
        (bool_leaf, oid_leaf, bits_leaf, real_leaf; INTEGER is LeafInt.signed_value_is_from_bytes);
    3   running the decoder over one TLV: header, EXPLICIT levels definite or indefinite, the level that
-       completes the tag set, for a type or a tag map as the spec (call_header, sp_ok, item_of_value_sp,
-       item_of_explicit_sp);
+       completes the tag set; sp_ok: a spec (a type, a tag map, or either of them resolving through
+       untagged CHOICEs) that resolves to a type T0, wrapping its value and costing fuel;
    4-5 the member loops; strings in any segmentation (octet_string_item, bit_string_item);
-   6-7 the fragment of types (frag) and one lemma per base type (the item_ lemmas);
-   9-10 tag maps of component lists; SET in any order; SEQUENCE with OPTIONAL / DEFAULT;
+   6   the fragment of types (frag); 6b the tagMap of every type of the fragment (tmok_frag), lookups
+       (assoc_nodup), positions by type (position_leaf), the specs (sp_ok_sty, sp_ok_map, sp_ok_alt);
+   7   one lemma per base type (the item_ lemmas);
+   10  SET in any order; SEQUENCE with OPTIONAL / DEFAULT; CHOICE (item_choice, item_exp_choice);
+       ANY (any_item, item_any, item_exp_any);
    11  the induction (all_items) and the theorems ber_all_forms_tree, ber_all_forms, ber_all_forms_unconditional.
 
-   Side conditions (see section 11): real_mantissas_present, ascii_strings_ascii.  Outside the fragment: CHOICE, ANY, character strings
-   whose repertoire the model does not decide (UniversalString, BMPString), EXPLICIT UNIVERSAL tags. *)
+   Side conditions (see section 11): real_mantissas_present, ascii_strings_ascii, any_without_tag_zero.
+   Outside the fragment: character strings whose repertoire the model does not decide (UniversalString,
+   BMPString), EXPLICIT UNIVERSAL tags, IMPLICIT tags on CHOICE / ANY (the reference refuses them), an
+   untagged ANY as a SET member, CHOICE alternative or next to OPTIONAL components (told by no tag). *)
 From Coq Require Import Lia.
 From PV Require Import Base.Bytes Model.Tag Model.TableTypes Model.Types Model.Proc Model.Enc Model.Dec Gen.Tables Spec.X690
      Proofs.Bits Proofs.ProcBind Proofs.RunLemmas Proofs.TagOctets Proofs.TagAlgebra Proofs.DecHeader Proofs.DecFrame
@@ -4081,23 +4087,82 @@ Proof.
 Qed.
 
 (* ====================================================================== *)
+(* 10e. ANY as a value, under its own type or under EXPLICIT tags             *)
+(* ====================================================================== *)
+
+Lemma item_any : item_ok TAny.
+Proof.
+  intros sp T0 W d acc e n a h f allow L Hsp Hbase Hkeys [He Hun] Hokh Hfuel Heoc Hsafe HL Hint.
+  destruct (Hun eq_refl) as [-> ->]. destruct (so_any sp TAny W d Hsp eq_refl) as (-> & -> & HW).
+  destruct (interp_any _ _ _ Hint) as [-> ->].
+  pose proof (nok_mono h f n Hokh ltac:(lia)) as Hok.
+  exists (VAny (node_raw n)). split; [|split; [reflexivity|]].
+  - rewrite Nat.add_0_r, HW.
+    apply (any_item n f allow false Hok (safe_u0 L (HL (KN, (Univ, 0)) (or_introl eq_refl)) n Hsafe) Heoc).
+  - destruct (ets_plain TAny (VAny (node_raw n)) I) as [H1 H2]. split; [exact H1|rewrite H2; lia].
+Qed.
+
+Lemma item_exp_any t : non_univ t = true -> item_ok0 (TExp t TAny).
+Proof.
+  intros Ht sp T0 W d acc e n a h f allow L Hsp Hbase Hkeys [He _] Hokh Hfuel Heoc Hsafe HL Hint.
+  destruct (interp_exp _ _ _ _ _ Hint) as (c & num & i & k & raw & -> & Hsame & Hint').
+  destruct (interp_any _ _ _ Hint') as [_ ->].
+  destruct (nok_kids _ _ _ _ _ _ Hokh) as (h' & -> & Hcnt & Hkids).
+  change (ty_depth (TExp t TAny)) with 2%nat in Hfuel.
+  destruct (fuel_kids h' 1 f Hfuel) as (f' & -> & Hfu).
+  pose proof (nok_mono _ (S (S f')) _ Hokh ltac:(lia)) as Hok.
+  inversion Hkids as [|? ? (Hnk & Hke & Hkl) _]; subst.
+  pose proof (safe_kids _ _ _ _ _ _ Hsafe) as Hsk. inversion Hsk as [|? ? Hsk1 _]; subst.
+  exists (VAny (node_raw k)). split; [|rewrite abs_exp; reflexivity].
+  cbn [kets app] in Hkeys.
+  assert (HbT: base_of T0 = TAny) by (rewrite Hbase; reflexivity).
+  apply (base_item sp T0 W d acc e (key t) _ (S (S f')) allow DcAny (mkDecFlags true (Some KAny)) _ Hsp); try assumption.
+  - rewrite HbT. reflexivity.
+  - assert (Htag: tagset_eqb (node_wire (Cons c num i [k] raw) :: acc) (tagset_of' T0) = true).
+    { apply tagset_eqb_keys. rewrite Hkeys. cbn [keys map]. fold (keys acc). rewrite (same_tag_key _ _ Hsame). reflexivity. }
+    destruct Hok as (Hsh & Ho & Hfit). pose proof (fits_of_body _ _ Hfit Hsh) as Hfb.
+    cbn [node_len node_body node_wire] in *. unfold kids_raw in *. cbn [map concat] in *. rewrite app_nil_r in *.
+    destruct i; cbn [dec_value].
+    + (* indefinite: one raw fragment, then end-of-contents *)
+      unfold dec_any_indef. rewrite Htag. cbn [pbind].
+      assert (Hparts: Forall (fun p => consumes (dec_call BER (S (S f')) (STy TAny) [] None true true) p (DRaw p)) [node_raw k]).
+      { constructor; [|constructor].
+        apply (any_item k (S f') true true (nok_mono h' (S f') k Hnk ltac:(lia))
+                 (safe_u0 L (HL (KN, (Univ, 0)) (or_introl eq_refl)) k Hsk1) Hke). }
+      intros s tl Hav. rewrite <- app_assoc in Hav.
+      destruct (any_indef_loop_run (dec_call BER (S (S f'))) (dec_call_eoo (S f')) (Some T0) (mkTag c true num :: acc) false true
+                  [node_raw k] Hparts (S (S f')) [] s tl ltac:(cbn [length]; lia)
+                  ltac:(cbn [concat]; rewrite app_nil_r; exact Hav)) as (s2 & Hrun & Hpos & Harr & Hcl & _).
+      rewrite Hrun. cbv zeta. cbn [concat app]. rewrite !app_nil_r. rewrite (create_any T0 _ _ HbT). cbn [resume].
+      exists s2. split; [reflexivity|]. cbn [concat] in Hpos. rewrite app_nil_r in Hpos. rewrite app_length. cbn [length].
+      repeat split; assumption.
+    + rewrite ?app_nil_r in *. unfold dec_any. rewrite Htag. cbn [negb pbind].
+      apply consumes_ret; [exact Hfb|apply (create_any T0 _ _ HbT)].
+Qed.
+
+(* ====================================================================== *)
 (* 11. every type of the fragment                                            *)
 (* ====================================================================== *)
 
-Theorem all_items : forall T, frag T = true -> item_ok T.
+Lemma base_kets_ne T : (match T with TImp _ _ | TExp _ _ | TChoice _ | TAny => False | _ => True end) -> forall e, kets T e <> [].
+Proof. intros H e. destruct T; try contradiction; discriminate. Qed.
+
+Theorem all_items_strong : forall T, frag T = true ->
+  item_ok T /\ match T with TChoice alts => Forall item_ok alts | _ => True end.
 Proof.
   induction T as [| | | | | | | | n|fs IH|fs IH|t IH|t IH|alts IH| |tg x IH|tg x IH] using ty_ind'; intros Hfr;
-    try discriminate Hfr.
-  - exact item_bool.
-  - exact item_int.
-  - exact item_enum.
-  - exact item_bits.
-  - exact item_octs.
-  - exact item_null.
-  - exact item_oid.
-  - exact item_real.
-  - apply item_str. exact Hfr.
-  - cbn [frag] in Hfr. apply andb_true_iff in Hfr. destruct Hfr as [Hfrs Hruns].
+    try (split; [|exact I]).
+  - apply item_up; [apply base_kets_ne; exact I|exact item_bool].
+  - apply item_up; [apply base_kets_ne; exact I|exact item_int].
+  - apply item_up; [apply base_kets_ne; exact I|exact item_enum].
+  - apply item_up; [apply base_kets_ne; exact I|exact item_bits].
+  - apply item_up; [apply base_kets_ne; exact I|exact item_octs].
+  - apply item_up; [apply base_kets_ne; exact I|exact item_null].
+  - apply item_up; [apply base_kets_ne; exact I|exact item_oid].
+  - apply item_up; [apply base_kets_ne; exact I|exact item_real].
+  - apply item_up; [apply base_kets_ne; exact I|apply item_str; exact Hfr].
+  - apply item_up; [apply base_kets_ne; exact I|].
+    cbn [frag] in Hfr. apply andb_true_iff in Hfr. destruct Hfr as [Hfr Hruns]. apply andb_true_iff in Hfr. destruct Hfr as [Hfrs Hmap].
     assert (HIH: Forall (fun f => item_ok (snd f)) fs).
     { clear -IH Hfrs. induction IH as [|x fs Hx _ IHf]; [constructor|].
       cbn [forallb] in Hfrs. apply andb_true_iff in Hfrs. destruct Hfrs as [H1 H2].
@@ -4107,16 +4172,33 @@ Proof.
       clear -Ereq Hfrs. induction fs as [|x fs IHf]; [reflexivity|].
       cbn [forallb] in *. apply andb_true_iff in Ereq. destruct Ereq as [E1 E2]. apply andb_true_iff in Hfrs. destruct Hfrs as [H1 H2].
       rewrite E1, H1, (IHf H2 E2). reflexivity.
-    + apply item_seq_opt; assumption.
-  - cbn [frag] in Hfr. apply andb_true_iff in Hfr. destruct Hfr as [Hfrs Hnd]. apply item_set; [exact Hfrs|exact Hnd|].
+    + cbn [orb] in Hmap. apply item_seq_opt; try assumption.
+      apply forallb_forall. intros x Hx. rewrite forallb_forall in Hfrs, Hmap. rewrite (Hfrs x Hx), (Hmap x Hx). reflexivity.
+  - apply item_up; [apply base_kets_ne; exact I|].
+    cbn [frag] in Hfr. apply andb_true_iff in Hfr. destruct Hfr as [Hfrs Hnd]. apply item_set; [exact Hfrs|exact Hnd|].
     clear -IH Hfrs. induction IH as [|x fs Hx _ IHf]; [constructor|].
-    cbn [forallb] in Hfrs. apply andb_true_iff in Hfrs. destruct Hfrs as [H1 H2].
+    cbn [forallb] in Hfrs. apply andb_true_iff in Hfrs. destruct Hfrs as [H1 H2]. apply andb_true_iff in H1. destruct H1 as [H1 _].
     constructor; [apply Hx; exact H1|apply IHf; exact H2].
-  - apply item_seqof; [exact Hfr|apply IH; exact Hfr].
-  - apply item_setof; [exact Hfr|apply IH; exact Hfr].
-  - cbn [frag] in Hfr. apply andb_true_iff in Hfr. destruct Hfr as [H1 H2]. apply item_imp; [exact H1|apply IH; exact H2].
-  - cbn [frag] in Hfr. apply andb_true_iff in Hfr. destruct Hfr as [H1 H2]. apply item_exp; [exact H1|apply IH; exact H2].
+  - apply item_up; [apply base_kets_ne; exact I|]. apply item_seqof; [exact Hfr|apply IH; exact Hfr].
+  - apply item_up; [apply base_kets_ne; exact I|]. apply item_setof; [exact Hfr|apply IH; exact Hfr].
+  - (* CHOICE *)
+    assert (HIH: Forall item_ok alts).
+    { pose proof Hfr as Hf. cbn [frag] in Hf. apply andb_true_iff in Hf. destruct Hf as [Hf _].
+      clear -IH Hf. induction IH as [|x alts Hx _ IHf]; [constructor|].
+      cbn [forallb] in Hf. apply andb_true_iff in Hf. destruct Hf as [H1 H2]. apply andb_true_iff in H1. destruct H1 as [H1 _].
+      constructor; [apply Hx; exact H1|apply IHf; exact H2]. }
+    split; [apply item_choice; assumption|exact HIH].
+  - exact item_any.
+  - cbn [frag] in Hfr. apply andb_true_iff in Hfr. destruct Hfr as [H1 H2]. apply andb_true_iff in H1. destruct H1 as [H1 Hh].
+    apply item_imp; [exact H1|exact Hh|apply IH; exact H2].
+  - cbn [frag] in Hfr. apply andb_true_iff in Hfr. destruct Hfr as [H1 H2].
+    destruct x; try (apply item_exp; [exact H1|apply (frag_headed _ H2 eq_refl I)|apply IH; exact H2]).
+    + apply item_up; [intros e; cbn [kets]; discriminate|]. apply item_exp_choice; [exact H1|exact H2|apply (IH H2)].
+    + apply item_up; [intros e; cbn [kets]; discriminate|]. apply item_exp_any. exact H1.
 Qed.
+
+Theorem all_items : forall T, frag T = true -> item_ok T.
+Proof. intros T H. apply (all_items_strong T H). Qed.
 
 Lemma decode_is_decode_with c sp b : decode c sp b = decode_with c (dec_fuel sp b) sp b.
 Proof. reflexivity. Qed.
@@ -4153,18 +4235,27 @@ Definition real_mantissas_present (T: ty) (n: node) : bool := safe (of_kind KR (
    (NumericString, PrintableString, IA5String, VisibleString, the time types, UTF8String) can carry,
    every octet of every primitive leaf is below 128 (the library checks the repertoire, X.690 does not) *)
 Definition ascii_strings_ascii (T: ty) (n: node) : bool := safe (of_kind KA (side_keys T None)) n.
+(* SIDE CONDITION 3: if an ANY occurs in T, no node carries the reserved tag UNIVERSAL 0 (the library
+   keeps that tag for the end-of-contents octets and never takes it for an ANY value) *)
+Definition any_without_tag_zero (T: ty) (n: node) : bool := safe (of_kind KN (side_keys T None)) n.
 
-Lemma safe_split L : forall n, safe (of_kind KR L) n = true -> safe (of_kind KA L) n = true -> safe L n = true.
+Lemma u0_ok_of_kind L c num : u0_ok (of_kind KN L) c num = u0_ok L c num.
+Proof. unfold u0_ok. rewrite memk_of_kind. reflexivity. Qed.
+Lemma u0_ok_other q L c num : q <> KN -> u0_ok (of_kind q L) c num = true.
+Proof. intros H. unfold u0_ok. rewrite (memk_other_kind KN q) by congruence. reflexivity. Qed.
+
+Lemma safe_split L : forall n, safe (of_kind KR L) n = true -> safe (of_kind KA L) n = true -> safe (of_kind KN L) n = true ->
+  safe L n = true.
 Proof.
-  induction n as [c num contents raw|c num indef kids raw IH] using node_ind'; intros H2 H3.
-  - cbn [safe] in *. rewrite memk_of_kind in H2, H3.
-    rewrite (memk_other_kind KA KR) in H2 by discriminate. rewrite (memk_other_kind KR KA) in H3 by discriminate.
-    cbn [negb orb andb] in H2, H3. rewrite andb_true_r in H2. rewrite H2, H3. reflexivity.
-  - cbn [safe] in *. rewrite memk_of_kind in H3.
-    apply andb_true_iff in H2. destruct H2 as [_ H2b].
-    apply andb_true_iff in H3. destruct H3 as [H3a H3b].
-    rewrite H3a. cbn [andb]. apply forallb_forall. intros k Hk. rewrite Forall_forall in IH.
-    rewrite forallb_forall in H2b, H3b. apply (IH k Hk (H2b k Hk) (H3b k Hk)).
+  induction n as [c num contents raw|c num indef kids raw IH] using node_ind'; intros H2 H3 H4.
+  - cbn [safe] in *. rewrite memk_of_kind in H2, H3. rewrite u0_ok_of_kind in H4.
+    apply andb3 in H2. apply andb3 in H3. apply andb3 in H4.
+    destruct H2 as (H2 & _ & _). destruct H3 as (_ & H3 & _). destruct H4 as (_ & _ & H4). rewrite H2, H3, H4. reflexivity.
+  - cbn [safe] in *. rewrite memk_of_kind in H3. rewrite u0_ok_of_kind in H4.
+    apply andb3 in H2. apply andb3 in H3. apply andb3 in H4.
+    destruct H2 as (_ & _ & H2b). destruct H3 as (H3a & _ & H3b). destruct H4 as (_ & H4a & H4b).
+    rewrite H3a, H4a. cbn [andb]. apply forallb_forall. intros k Hk. rewrite Forall_forall in IH.
+    rewrite forallb_forall in H2b, H3b, H4b. apply (IH k Hk (H2b k Hk) (H3b k Hk) (H4b k Hk)).
 Qed.
 
 (* C09, tree form: whatever TLV tree the reference parses off the front of b and interprets under T as
@@ -4173,50 +4264,49 @@ Qed.
 Theorem ber_all_forms_tree : forall T b n a tl,
   frag T = true -> wf_bytes b = true -> N.of_nat (length b) <= index_max ->
   parse b = Some (n, tl) -> interp T None n = Some a ->
-  real_mantissas_present T n = true -> ascii_strings_ascii T n = true ->
+  real_mantissas_present T n = true -> ascii_strings_ascii T n = true -> any_without_tag_zero T n = true ->
   exists v, decode BER (Some T) b = Ok (DV T v, tl) /\ abs T v = a.
 Proof.
-  intros T b n a tl Hfr Hwf Hmax Hparse Hint Hsafe2 Hsafe3.
-  pose proof (safe_split (side_keys T None) n Hsafe2 Hsafe3) as Hsafe.
+  intros T b n a tl Hfr Hwf Hmax Hparse Hint Hsafe2 Hsafe3 Hsafe4.
+  pose proof (safe_split (side_keys T None) n Hsafe2 Hsafe3 Hsafe4) as Hsafe.
   pose proof (wf_bytes_octs b Hwf) as Hb.
   destruct (parse_shape b n tl Hb Hparse) as [Hsh Eb].
-  destruct (frag_facts T Hfr) as [Hw Htb].
-  destruct (keys_kets T Hw Htb) as (ts & Hts & _ & Hk & _).
-  assert (Hkeys: keys (tagset_of' T) = kets T None ++ keys []).
-  { rewrite (RoundTrip1.tagset_of'_ok T ts Hts), Hk, app_nil_r. reflexivity. }
+  assert (Hkeys: keys (tagset_of' T) = kets T None ++ keys []) by (rewrite (frag_keys T Hfr), app_nil_r; reflexivity).
   set (f := (2 * length b + 2 * ty_depth T + 5)%nat).
-  assert (Hok: nok f n).
+  assert (Hok: nok (length b) n).
   { split; [exact Hsh|]. split; [rewrite Eb in Hb; apply octs_app in Hb; tauto|].
     assert (Hl: (length (node_raw n) <= length b)%nat) by (rewrite Eb, app_length; lia).
-    split; [lia|subst f; lia]. }
-  destruct (all_items T Hfr (STy T) T [] None n a f false (side_keys T None) (sp_ok_sty T Htb) Htb eq_refl Hkeys I Hok ltac:(discriminate) Hsafe
-              (fun k Hk0 => memk_in k _ Hk0) Hint) as (v & Hc & Ha).
+    split; lia. }
+  destruct (all_items T Hfr (STy T) T (DV T) 0%nat [] None n a (length b) f false (side_keys T None) (sp_sty T Hfr) eq_refl Hkeys
+              (conj I (fun _ => conj eq_refl eq_refl)) Hok ltac:(subst f; lia) ltac:(discriminate) Hsafe
+              (fun k Hk0 => memk_in k _ Hk0) Hint) as (v & Hc & Ha & _).
   exists v. split; [|exact Ha].
   rewrite decode_is_decode_with. rewrite Eb at 2.
   apply RoundTrip1.consumes_decode_with. unfold dec_item, dec_fuel.
-  replace (2 * length b + 2 * ty_depth T + 6)%nat with (S f) by (subst f; lia). exact Hc.
+  replace (2 * length b + 2 * ty_depth T + 6)%nat with (S (f + 0)) by (subst f; lia). exact Hc.
 Qed.
 
 (* C09 in the shape of the property: read = parse + interp *)
 Theorem ber_all_forms : forall T b a tl,
   frag T = true -> wf_bytes b = true -> N.of_nat (length b) <= index_max ->
   X690.read T b = Some (a, tl) ->
-  (forall n r, parse b = Some (n, r) -> real_mantissas_present T n = true /\ ascii_strings_ascii T n = true) ->
+  (forall n r, parse b = Some (n, r) ->
+     real_mantissas_present T n = true /\ ascii_strings_ascii T n = true /\ any_without_tag_zero T n = true) ->
   exists v, decode BER (Some T) b = Ok (DV T v, tl) /\ abs T v = a.
 Proof.
   intros T b a tl Hfr Hwf Hmax Hread Hsafe. unfold X690.read in Hread.
   destruct (parse b) as [[n rest]|] eqn:Hp; [|discriminate Hread].
   destruct (interp T None n) as [a'|] eqn:Hi; [|discriminate Hread]. cbn [opt_bind] in Hread.
   inversion Hread; subst a' rest.
-  destruct (Hsafe n tl eq_refl) as (H2 & H3).
-  apply (ber_all_forms_tree T b n a tl Hfr Hwf Hmax Hp Hi H2 H3).
+  destruct (Hsafe n tl eq_refl) as (H2 & H3 & H4).
+  apply (ber_all_forms_tree T b n a tl Hfr Hwf Hmax Hp Hi H2 H3 H4).
 Qed.
 
-(* types in which no REAL and no ASCII-repertoire string occurs need no side condition *)
+(* types in which no REAL, no ASCII-repertoire string and no ANY occurs need no side condition *)
 Lemma safe_nil : forall n, safe [] n = true.
 Proof.
   induction n as [c num contents raw|c num indef kids raw IH] using node_ind'; [reflexivity|].
-  cbn [safe memk existsb]. cbn [negb andb orb]. apply forallb_forall. intros k Hk.
+  cbn [safe memk existsb u0_ok]. cbn [negb andb orb]. apply forallb_forall. intros k Hk.
   rewrite Forall_forall in IH. apply IH. exact Hk.
 Qed.
 
@@ -4226,35 +4316,46 @@ Theorem ber_all_forms_unconditional : forall T b a tl,
   exists v, decode BER (Some T) b = Ok (DV T v, tl) /\ abs T v = a.
 Proof.
   intros T b a tl Hfr Hnb Hwf Hmax Hread. apply (ber_all_forms T b a tl Hfr Hwf Hmax Hread).
-  intros n r _. unfold real_mantissas_present, ascii_strings_ascii. rewrite Hnb.
+  intros n r _. unfold real_mantissas_present, ascii_strings_ascii, any_without_tag_zero. rewrite Hnb.
   unfold of_kind. cbn [filter]. repeat split; apply safe_nil.
 Qed.
 
 (* the hypotheses are satisfiable on an input that uses the liberties of the basic rules: indefinite
    and definite lengths mixed, a long-form length for one octet, over-long length octets, a long-form
    tag number, a segmented BIT STRING with a nested constructed segment under an IMPLICIT tag, a
-   constructed character string, an OPTIONAL and a DEFAULT component absent, SET members out of order
-   (REAL, BOOLEAN, OID; the DEFAULT member absent), TRUE as 07, a binary REAL, octets left unread *)
+   constructed IA5String, an OPTIONAL and a DEFAULT component absent, an OPTIONAL untagged CHOICE whose
+   alternative is an EXPLICITly tagged CHOICE holding a segmented OCTET STRING, SET members out of order
+   (REAL, BOOLEAN, OID; the DEFAULT member absent), TRUE as 07, a binary REAL, an untagged ANY holding an
+   indefinite-length SEQUENCE, an EXPLICITly tagged ANY, octets left unread *)
 Definition ex_T : ty :=
   TSeq [(Req, TExp (mkTag Ctx false 0) TInt); (Opt, TNull); (Def (VBool true), TBool);
-        (Req, TImp (mkTag Appl false 40) TBits); (Req, TSeqOf (TStr 20));
-        (Req, TSet [(Req, TBool); (Opt, TOid); (Def (VInt 7%Z), TImp (mkTag Ctx false 2) TInt); (Req, TReal)])].
+        (Req, TImp (mkTag Appl false 40) TBits); (Req, TSeqOf (TStr 22));
+        (Opt, TChoice [TStr 12; TExp (mkTag Ctx false 3) (TChoice [TInt; TOcts]); TChoice [TEnum; TImp (mkTag Ctx false 4) TNull]]);
+        (Req, TSet [(Req, TBool); (Opt, TOid); (Def (VInt 7%Z), TImp (mkTag Ctx false 2) TInt); (Req, TReal)]);
+        (Req, TSeq [(Req, TAny); (Req, TExp (mkTag Ctx false 6) TAny)])].
 Definition ex_b : bytes :=
   [48; 128;  160; 128; 2; 129; 1; 5; 0; 0;   127; 40; 128; 3; 2; 0; 170; 35; 4; 3; 2; 4; 240; 0; 0;
-   48; 131; 0; 0; 5; 52; 3; 4; 1; 200;
+   48; 131; 0; 0; 5; 54; 3; 4; 1; 72;
+   163; 128; 36; 128; 4; 1; 9; 0; 0; 0; 0;
    49; 12;  9; 3; 128; 255; 5;   1; 1; 7;   6; 2; 42; 3;
+   48; 128;  48; 128; 5; 0; 0; 0;  166; 3; 4; 1; 7;  0; 0;
    0; 0;  9; 9].
 Definition ex_bits : list bool := [true; false; true; false; true; false; true; false; true; true; true; true].
 
 Example ber_all_forms_nonvacuous :
   frag ex_T = true /\ wf_bytes ex_b = true /\ N.of_nat (length ex_b) <= index_max
   /\ X690.read ex_T ex_b
-     = Some (ARec [Some (AInt 5); None; Some (ABool true); Some (ABits ex_bits); Some (AList [AOcts [200]]);
-                   Some (ARec [Some (ABool true); Some (AOid [1; 2; 3]); Some (AInt 7); Some (AReal (ABin 5 (-1)))])], [9; 9])
-  /\ (forall n r, parse ex_b = Some (n, r) -> real_mantissas_present ex_T n = true /\ ascii_strings_ascii ex_T n = true)
+     = Some (ARec [Some (AInt 5); None; Some (ABool true); Some (ABits ex_bits); Some (AList [AOcts [72]]);
+                   Some (AChoice 1 (AChoice 1 (AOcts [9])));
+                   Some (ARec [Some (ABool true); Some (AOid [1; 2; 3]); Some (AInt 7); Some (AReal (ABin 5 (-1)))]);
+                   Some (ARec [Some (AAny [48; 128; 5; 0; 0; 0]); Some (AAny [4; 1; 7])])], [9; 9])
+  /\ (forall n r, parse ex_b = Some (n, r) ->
+        real_mantissas_present ex_T n = true /\ ascii_strings_ascii ex_T n = true /\ any_without_tag_zero ex_T n = true)
   /\ decode BER (Some ex_T) ex_b
-     = Ok (DV ex_T (VRec [Some (VInt 5); None; None; Some (VBits ex_bits); Some (VList [VOcts [200]]);
-                          Some (VRec [Some (VBool true); Some (VOid [1; 2; 3]); None; Some (VReal (RBin 5 (-1)))])]), [9; 9]).
+     = Ok (DV ex_T (VRec [Some (VInt 5); None; None; Some (VBits ex_bits); Some (VList [VOcts [72]]);
+                          Some (VChoice 1 (VChoice 1 (VOcts [9])));
+                          Some (VRec [Some (VBool true); Some (VOid [1; 2; 3]); None; Some (VReal (RBin 5 (-1)))]);
+                          Some (VRec [Some (VAny [48; 128; 5; 0; 0; 0]); Some (VAny [4; 1; 7])])]), [9; 9]).
 Proof.
   split; [vm_compute; reflexivity|]. split; [vm_compute; reflexivity|]. split; [vm_compute; discriminate|].
   split; [vm_compute; reflexivity|]. split; [|vm_compute; reflexivity].
@@ -4262,22 +4363,29 @@ Proof.
   revert H. destruct (parse ex_b) as [[n0 r0]|] eqn:Hp; [|congruence].
   intros H. inversion H; subst n0 r0. clear H E.
   assert (Hc: match parse ex_b with
-              | Some (n1, _) => real_mantissas_present ex_T n1 && ascii_strings_ascii ex_T n1
+              | Some (n1, _) => real_mantissas_present ex_T n1 && (ascii_strings_ascii ex_T n1 && any_without_tag_zero ex_T n1)
               | None => false end = true)
     by (vm_compute; reflexivity).
-  rewrite Hp in Hc. apply andb_true_iff in Hc. exact Hc.
+  rewrite Hp in Hc. apply andb_true_iff in Hc. destruct Hc as [H1 H2]. apply andb_true_iff in H2. tauto.
 Qed.
 
-(* the second side condition is needed as the reference stands *)
+(* the first side condition is needed as the reference stands *)
 Example real_refuted_empty_mantissa :
   X690.read TReal [9; 2; 128; 0] = Some (AReal AZero, []) /\ decode BER (Some TReal) [9; 2; 128; 0] = Err EMalformed.
 Proof. vm_compute. split; reflexivity. Qed.
 
-(* the third side condition reflects a check the library makes and X.690 does not *)
+(* the second side condition reflects a check the library makes and X.690 does not *)
 Example ascii_refuted_high_octet :
   X690.read (TStr 22) [22; 1; 200] = Some (AOcts [200], []) /\ decode BER (Some (TStr 22)) [22; 1; 200] = Err EUnicode
   /\ X690.read (TStr 22) [54; 128; 4; 1; 72; 36; 3; 4; 1; 105; 0; 0] = Some (AOcts [72; 105], [])
   /\ decode BER (Some (TStr 22)) [54; 128; 4; 1; 72; 36; 3; 4; 1; 105; 0; 0] = Ok (DV (TStr 22) (VOcts [72; 105]), []).
+Proof. vm_compute. repeat split. Qed.
+
+(* the third side condition: an ANY value tagged UNIVERSAL 0 is read by the reference, not by the library *)
+Example any_refuted_tag_zero :
+  X690.read TAny [0; 1; 7] = Some (AAny [0; 1; 7], []) /\ decode BER (Some TAny) [0; 1; 7] = Err EMalformed
+  /\ X690.read TAny [36; 128; 4; 1; 7; 0; 0; 5] = Some (AAny [36; 128; 4; 1; 7; 0; 0], [5])
+  /\ decode BER (Some TAny) [36; 128; 4; 1; 7; 0; 0; 5] = Ok (DV TAny (VAny [36; 128; 4; 1; 7; 0; 0]), [5]).
 Proof. vm_compute. repeat split. Qed.
 
 Print Assumptions split_ident_dec_ident.
@@ -4287,6 +4395,7 @@ Print Assumptions oid_leaf.
 Print Assumptions real_leaf.
 Print Assumptions octet_string_item.
 Print Assumptions bit_string_item.
+Print Assumptions any_item.
 Print Assumptions all_items.
 Print Assumptions ber_all_forms_tree.
 Print Assumptions ber_all_forms.
